@@ -125,19 +125,21 @@ int get_sig_seg_size(const struct rtr_signature_seg *sig_segs, enum align_type t
 	return sig_segs_size;
 }
 
-int check_router_keys(const struct rtr_signature_seg *sig_segs, struct spki_table *table)
+int check_router_keys(const struct rtr_signature_seg *sig_segs, const struct rtr_secure_path_seg *sec_path,
+		      struct spki_table *table)
 {
 	struct spki_record *tmp_key = NULL;
 	const struct rtr_signature_seg *curr = sig_segs;
+	const struct rtr_secure_path_seg *curr_sec = sec_path;
 
-	while (curr) {
+	while (curr && curr_sec) {
 		unsigned int router_keys_len = 0;
 		enum spki_rtvals spki_retval =
-			spki_table_search_by_ski(table, (uint8_t *)curr->ski, &tmp_key, &router_keys_len);
+			spki_table_get_all(table, curr_sec->asn, (uint8_t *)curr->ski, &tmp_key, &router_keys_len);
 		if (spki_retval == SPKI_ERROR)
 			return RTR_BGPSEC_ERROR;
 
-		/* Return an error, if a router key was not found. */
+		/* Return an error, if no router key of the AS of this segment was found. */
 		if (router_keys_len == 0) {
 			char ski_str[SKI_STR_LEN] = {0};
 
@@ -147,6 +149,7 @@ int check_router_keys(const struct rtr_signature_seg *sig_segs, struct spki_tabl
 		}
 		lrtr_free(tmp_key);
 		curr = curr->next;
+		curr_sec = curr_sec->next;
 	}
 
 	return RTR_BGPSEC_SUCCESS;
